@@ -8,6 +8,7 @@ import (
 	"io"
 	"reflect"
 	"strings"
+	"time"
 	"unicode/utf8"
 
 	"go.pennock.tech/tabular"
@@ -139,7 +140,7 @@ func c07Text(item interface{}) string {
 type c07Spec struct {
 	HasHeader   bool          `json:"has_header"`
 	Header      []gen.Q       `json:"header"`
-	HeaderKinds []int         `json:"header_item_kinds"` // 0 string, 1 Stringer, 2 GoStringer+error, 3 nested cell, 4 error
+	HeaderKinds []int         `json:"header_item_kinds"` // 0 string, 1 Stringer, 2 GoStringer+error, 3 nested cell, 4 error, 5 named string with String, 6 []byte, 7 TextMarshaler, 8 json.Marshaler, 9 struct with fields and String, 10 time.Time, 11 int, 12 pointer to named string, 13 bool
 	Rows        [][]c07Item   `json:"rows"`              // nil entry = separator
 	Sep         []bool        `json:"separators"`
 	Skip0       interface{}   `json:"skipable_column0"` // nil unset
@@ -209,26 +210,78 @@ func (s *c07Spec) render() (string, error) {
 	return jw.Render()
 }
 
+// header items of other dynamic types: the key is the header's TEXT whatever the item's own JSON encoding would be
+type c07NamedStr string
+
+func (u c07NamedStr) String() string { return "S:" + string(u) }
+
+type c07TextM struct{ S string }
+
+func (m c07TextM) MarshalText() ([]byte, error) { return []byte("tm:" + m.S), nil }
+func (m c07TextM) String() string               { return m.S }
+
+type c07JSONM struct{ S string }
+
+func (m c07JSONM) MarshalJSON() ([]byte, error) { return stdjson.Marshal("mj:" + m.S) }
+func (m c07JSONM) String() string               { return m.S }
+
+type c07Tagged struct {
+	N int
+	S string `json:"-"`
+}
+
+func (m c07Tagged) String() string { return m.S }
+
+const c07HeaderKinds = 14
+
+// kinds whose text is the header text itself
+var c07TextKeepingKinds = []int{0, 1, 3, 4, 7, 8, 9}
+
+func (s *c07Spec) headerItem(i int) interface{} {
+	txt := string(s.Header[i])
+	kind := 0
+	if i < len(s.HeaderKinds) {
+		kind = s.HeaderKinds[i]
+	}
+	switch kind {
+	case 1:
+		return gen.VS_0{S: txt} // a Stringer whose text is the header
+	case 2:
+		return &gen.PGE_0{G: txt, E: "<wrong: Error>"} // GoString wins over Error
+	case 3:
+		return tabular.NewCell(txt) // nested cell
+	case 4:
+		return errors.New(txt)
+	case 5:
+		return c07NamedStr(txt) // encodes as the JSON string txt, reads "S:"+txt
+	case 6:
+		return []byte(txt) // encodes as a base64 string, reads as a list of numbers
+	case 7:
+		return c07TextM{txt}
+	case 8:
+		return c07JSONM{txt}
+	case 9:
+		return c07Tagged{N: i, S: txt}
+	case 10:
+		return time.Unix(1000000000+int64(i)*86400+int64(len(txt)), 0).UTC()
+	case 11:
+		return i*1000 + len(txt)
+	case 12:
+		u := c07NamedStr(txt)
+		return &u
+	case 13:
+		return i%2 == 0
+	}
+	return txt
+}
+
+// headerText is the text of header i (the text form itself is C01's business).
+func (s *c07Spec) headerText(i int) string { return c07Text(s.headerItem(i)) }
+
 func (s *c07Spec) headerItems() []interface{} {
 	hs := make([]interface{}, len(s.Header))
 	for i := range hs {
-		txt := string(s.Header[i])
-		kind := 0
-		if i < len(s.HeaderKinds) {
-			kind = s.HeaderKinds[i]
-		}
-		switch kind {
-		case 1:
-			hs[i] = gen.VS_0{S: txt}
-		case 2:
-			hs[i] = &gen.PGE_0{G: txt, E: "<wrong: Error>"}
-		case 3:
-			hs[i] = tabular.NewCell(txt)
-		case 4:
-			hs[i] = errors.New(txt)
-		default:
-			hs[i] = txt
-		}
+		hs[i] = s.headerItem(i)
 	}
 	return hs
 }
@@ -236,27 +289,7 @@ func (s *c07Spec) headerItems() []interface{} {
 func (s *c07Spec) build() *tabular.ATable {
 	t := tabular.New()
 	if s.HasHeader {
-		hs := make([]interface{}, len(s.Header))
-		for i := range hs {
-			txt := string(s.Header[i])
-			kind := 0
-			if i < len(s.HeaderKinds) {
-				kind = s.HeaderKinds[i]
-			}
-			switch kind {
-			case 1:
-				hs[i] = gen.VS_0{S: txt} // a Stringer whose text is the header
-			case 2:
-				hs[i] = &gen.PGE_0{G: txt, E: "<wrong: Error>"} // GoString wins over Error
-			case 3:
-				hs[i] = tabular.NewCell(txt) // nested cell
-			case 4:
-				hs[i] = errors.New(txt)
-			default:
-				hs[i] = txt
-			}
-		}
-		t.AddHeaders(hs...)
+		t.AddHeaders(s.headerItems()...)
 	}
 	for i, r := range s.Rows {
 		if s.Sep[i] {
@@ -298,7 +331,7 @@ func (s *c07Spec) expectError() string {
 	}
 	seen := map[string]bool{}
 	for i := 0; i < n; i++ {
-		h := string(s.Header[i])
+		h := s.headerText(i)
 		if h == "" {
 			return "empty header"
 		}
@@ -444,8 +477,8 @@ func c07Check(c *Ctx, s *c07Spec, sigExtra string, sample bool) {
 		return
 	}
 	invalidHeader := false
-	for _, h := range s.Header {
-		if !utf8.ValidString(string(h)) {
+	for hi := range s.Header {
+		if !utf8.ValidString(s.headerText(hi)) {
 			invalidHeader = true
 		}
 	}
@@ -508,7 +541,7 @@ func c07Check(c *Ctx, s *c07Spec, sigExtra string, sample bool) {
 					c.Rec.Count("empty_object_fallbacks_to_text", 1)
 				}
 			}
-			wantKeys[string(s.Header[col])] = enc
+			wantKeys[s.headerText(col)] = enc
 		}
 		got := objs[ri]
 		for k, wv := range wantKeys {
@@ -573,7 +606,7 @@ func c07Random(c *Ctx, i int, r *gen.R) {
 	if r.Chance(1, 3) {
 		s.HeaderKinds = make([]int, n)
 		for k := range s.HeaderKinds {
-			s.HeaderKinds[k] = r.Intn(5)
+			s.HeaderKinds[k] = r.Intn(c07HeaderKinds)
 		}
 	}
 	nrows := r.Range(0, 6)
@@ -627,12 +660,20 @@ func c07Random(c *Ctx, i int, r *gen.R) {
 			s.Sep = append(s.Sep, false)
 		}
 	case 2:
-		s.Header[r.Intn(n)] = ""
+		k := r.Intn(n)
+		s.Header[k] = ""
+		if s.HeaderKinds != nil {
+			s.HeaderKinds[k] = gen.Pick(r, c07TextKeepingKinds)
+		}
 	case 3:
 		if n > 1 {
 			a := r.Intn(n)
 			b := (a + 1 + r.Intn(n-1)) % n
 			s.Header[b] = s.Header[a]
+			if s.HeaderKinds != nil {
+				// the same text from items of possibly different dynamic types is still a duplicate
+				s.HeaderKinds[a], s.HeaderKinds[b] = gen.Pick(r, c07TextKeepingKinds), gen.Pick(r, c07TextKeepingKinds)
+			}
 		}
 	case 4:
 		s.Skip0 = gen.Pick(r, []interface{}{"yes", 1, 0.0, []bool{true}, struct{}{}})
@@ -726,7 +767,7 @@ func init() {
 		ID:    "C07",
 		Level: "exploration",
 		Rule: "phase 0 (exhaustive): every placement of separators among n<=5 rows (2^n masks) x 3 row flavours (full rows, short rows, all-empty rows in skipable columns); phase 1 (exhaustive): every assignment of {unset,true,false} to column 0 and 3 columns (81) x {direct, set-garbage-then-clear-then-set} on a table with empty/nil cells in every position, a short row, a zero-cell row and a separator; " +
-			"phase 2: random tables of 1-5 columns x 0-6 rows with unique non-empty valid-UTF-8 headers from ascii+html+md+wide+LF+csv+emoji alphabets (a third of the tables with header items that are Stringers, GoStringer+error types, nested cells or errors instead of strings), items of 18 JSON kinds (incl. field-less struct with String, json.Marshaler, nested Cell, chan, failing Marshaler), ragged/zero-cell rows, separators, random skipable assignments, and with probability 1/2 one of the listed misconfigurations (no header, too few headers, empty header, duplicate header, no columns, non-bool skipable on column 0 / a column) or an invalid-UTF-8 header (no-panic only). " +
+			"phase 2: random tables of 1-5 columns x 0-6 rows with unique non-empty valid-UTF-8 headers from ascii+html+md+wide+LF+csv+emoji alphabets (a third of the tables with header items of 13 other dynamic types instead of strings: Stringers, GoStringer+error types, nested cells, errors, a named string type whose String differs from its value, []byte, TextMarshaler and json.Marshaler types whose encoding is a different string, a struct with fields, time.Time, int, bool, pointer to a named string; the key must be the header's text whatever the item's own encoding), items of 18 JSON kinds (incl. field-less struct with String, json.Marshaler, nested Cell, chan, failing Marshaler), ragged/zero-cell rows, separators, random skipable assignments, and with probability 1/2 one of the listed misconfigurations (no header, too few headers, empty header, duplicate header, no columns, non-bool skipable on column 0 / a column) or an invalid-UTF-8 header (no-panic only). " +
 			"Output decoded with encoding/json (duplicate-key-aware token pass) and compared with the model. Distinct = distinct (headers, row kinds, separators, skipable assignment); non-trivial = at least one row.",
 		Assumptions: []string{
 			"values are compared as JSON values (compact bytes, else decoded equality), keys as decoded strings; key order and whitespace are not asserted",
